@@ -50,14 +50,15 @@ type Engine struct {
 	incon   map[string]bool
 
 	sliceOfIface   types.Type
+	jsonNumT       types.Type
 	mapStringIface types.Type
-	visited  *visitedSet
-	hashGlobals []*ssa.Global
-	fnInfos  sync.Map
-	fnMetas  sync.Map
-	constVal sync.Map
-	sampleMu sync.Mutex
-	nsample  int
+	visited        *visitedSet
+	hashGlobals    []*ssa.Global
+	fnInfos        sync.Map
+	fnMetas        sync.Map
+	constVal       sync.Map
+	sampleMu       sync.Mutex
+	nsample        int
 }
 
 type KnownFinding struct {
@@ -156,25 +157,25 @@ type CheckSpec struct {
 }
 
 type EntrySpec struct {
-	Name        string   `json:"name"`
-	Pkg         string   `json:"pkg"`
-	Tiers       []string `json:"tiers"` // quick, thorough
-	MaxPaths    int      `json:"max_paths"`
-	Preemptions int      `json:"preemptions"`
-	MaxThreads  int      `json:"max_threads"`
-	NoTimers    bool     `json:"no_timers"`
-	TimerHorizonS int    `json:"timer_horizon_s"`
-	Fuel        int      `json:"fuel"`
-	Bounds      string   `json:"bounds"`
-	Mandatory   []string `json:"mandatory"` // cover labels / assert labels that must be reached
-	Witness     bool     `json:"witness"`   // reachability twin: must come back violated
-	Env         map[string]string `json:"env"`
-	TimeoutS    int      `json:"timeout_s"`
-	RaceCheck   bool     `json:"race_check"`
-	NoNative    bool     `json:"no_native"`
-	NoStateHash bool     `json:"no_state_hash"`
-	NoStubs     bool     `json:"no_stubs"`
-	MaxDecisions int     `json:"max_decisions"`
+	Name          string            `json:"name"`
+	Pkg           string            `json:"pkg"`
+	Tiers         []string          `json:"tiers"` // quick, thorough
+	MaxPaths      int               `json:"max_paths"`
+	Preemptions   int               `json:"preemptions"`
+	MaxThreads    int               `json:"max_threads"`
+	NoTimers      bool              `json:"no_timers"`
+	TimerHorizonS int               `json:"timer_horizon_s"`
+	Fuel          int               `json:"fuel"`
+	Bounds        string            `json:"bounds"`
+	Mandatory     []string          `json:"mandatory"` // cover labels / assert labels that must be reached
+	Witness       bool              `json:"witness"`   // reachability twin: must come back violated
+	Env           map[string]string `json:"env"`
+	TimeoutS      int               `json:"timeout_s"`
+	RaceCheck     bool              `json:"race_check"`
+	NoNative      bool              `json:"no_native"`
+	NoStateHash   bool              `json:"no_state_hash"`
+	NoStubs       bool              `json:"no_stubs"`
+	MaxDecisions  int               `json:"max_decisions"`
 }
 
 const repoDir = "/repo"
